@@ -55,7 +55,12 @@ func init() {
 func c16CheckList(w *mon.W, keys []string) bool {
 	w.Op, w.Obj = "FirstDiffBits", keys
 	in := append([]string(nil), keys...)
+	keys, guardK := argStrs(w, keys)
 	got := sigbits.FirstDiffBits(keys)
+	if !guardK() {
+		w.Fail("FirstDiffBits/wrote-outside-len-of-argument", mon.D{"nkeys": len(in)})
+		return false
+	}
 	if len(got) != len(keys)-1 {
 		w.Fail("FirstDiffBits/len", mon.D{"keys": fmt.Sprintf("%q", in), "got": len(got)})
 		return false
@@ -112,6 +117,7 @@ func c16CheckList(w *mon.W, keys []string) bool {
 	if len(keys) == 1 {
 		w.Bucket("fd/single-key-list")
 	}
+	scribbleI32(got) // ours now
 	if len(got) > 0 && !retainCheck(w, "FirstDiffBits", "sigbits.FirstDiffBits", func() uint64 { return hashI32(got) }) {
 		return false
 	}
